@@ -57,6 +57,12 @@ def cases(chk):
         yield "lib-decodes-ref", {"tree": to_json(("m", [("id", "z%d" % nb)], bytes([nb % 251]) * nb, [])), "seed": nb, "deflate": 1}
         yield "lib-decodes-ref", {"tree": to_json(("m", [("id", "k%d" % nb)], None, [("c", [("i", str(i))], bytes([i % 251 + 1]) * (nb // 40 + 1), []) for i in range(40)])),
                                   "seed": nb + 1, "deflate": 1}
+    # the coder layer keeps ONE encoder for the life of the stack: an encode that fails half-way (a value the format cannot carry) must leave
+    # nothing behind that ends up in the next frame
+    for bad in ("int-attribute", "wide-character", "too-many-children", "none-data-kid", "int-attribute-late"):
+        for t in (("iq", [("id", "77"), ("type", "get")], None, []), ("message", [("to", "1234@s.whatsapp.net")], None, [("body", [], b"hello", []), ("x", [], b"1", [])])):
+            assert trees.wf(t)
+            yield "ref-decodes-lib", {"tree": to_json(t), "pre_fail": bad}
     n = chk.scale(700, 20000)
     for i in range(n):
         if not chk.time_left():
@@ -64,7 +70,7 @@ def cases(chk):
         t = g.tree()
         if not trees.wf(t):
             continue
-        yield "ref-decodes-lib", {"tree": to_json(t)}
+        yield "ref-decodes-lib", dict({"tree": to_json(t)}, **({"pre_fail": r.choice(["int-attribute", "wide-character", "int-attribute-late"])} if i % 10 == 0 else {}))
         for _ in range(2):
             yield "lib-decodes-ref", {"tree": to_json(t), "seed": r.randrange(1 << 30), "deflate": 1 if r.random() < 0.2 else 0}
     if not chk.quick():
@@ -76,9 +82,32 @@ def cases(chk):
                 yield "lib-decodes-ref", {"tree": to_json(t), "seed": s, "deflate": s % 2}
 
 
+def _failing_encode(chk, kind):
+    """push a stanza the format cannot carry through the same (long-lived) coder layer; the error goes to the caller and is ignored here"""
+    from yowsup.structs import ProtocolTreeNode as N
+    if kind == "int-attribute":
+        node = N("iq", {"id": "1", "t": 1500000002})
+    elif kind == "int-attribute-late":
+        node = N("message", {"to": "1234@s.whatsapp.net"}, [N("a", {"k": "v"}, None, b"payload"), N("b", {"n": 7})])
+    elif kind == "wide-character":
+        node = N("presence", {"name": u"caf\u0100"})
+    elif kind == "none-data-kid":
+        node = N("m", {"id": "9"}, [N("c", {"i": "1"}, None, b"abc"), N(None, {})])
+    else:
+        node = N("list", {}, [N("item", {})] * 65536)
+    del chk.bottom.sent[:]
+    try:
+        chk.coder.send(node)
+        chk.hit("pre-fail:%s:accepted" % kind)
+    except Exception:
+        chk.hit("pre-fail:%s:refused" % kind)
+        c01._unlock(chk)
+    del chk.bottom.sent[:]
+
+
 def nontrivial(stream, case):
     if "tree" in case:
-        return (stream, to_line(from_json(case["tree"]))[:20000], case.get("seed"), case.get("deflate"))
+        return (stream, to_line(from_json(case["tree"]))[:20000], case.get("seed"), case.get("deflate"), case.get("pre_fail"))
     return (stream,)
 
 
@@ -103,6 +132,8 @@ def run_case(chk, stream, case):
         return fails
     t = from_json(case["tree"])
     if stream == "ref-decodes-lib":
+        if case.get("pre_fail"):
+            _failing_encode(chk, case["pre_fail"])
         frame, err = c01.impl_encode(chk, t)
         if frame is None:
             fails.append(oracle("C02:encode-raises", "well-formed tree %s refused: %s" % (to_line(t)[:160], err)))
@@ -116,7 +147,8 @@ def run_case(chk, stream, case):
         except refcodec.FormatError as e:
             ok, why = False, "reference decoder rejects the frame: %s" % e
         if not ok:
-            fails.append(oracle("C02:emitted-frame-invalid", "tree %s -> frame %s: %s" % (to_line(t)[:160], frame[:48].hex(), why)))
+            fails.append(oracle("C02:emitted-frame-invalid", "tree %s%s -> frame %s: %s" % (to_line(t)[:160], " (encoded right after a stanza the coder refused: %s)" % case["pre_fail"] if case.get("pre_fail") else "",
+                                                                  frame[:48].hex(), why)))
         return fails
     if stream == "lib-decodes-ref":
         rr = random.Random(case["seed"])
